@@ -1074,11 +1074,20 @@ func (p *printer) expr1(expr ast.Expr, prec1, depth int) {
 			p.print(token.RBRACE)
 		}
 	case *ast.ErrWrapExpr:
-		p.expr(x.X)
+		// expr! and expr? are postfix (primary) expressions; expr?:default
+		// binds like a unary expression (its default value is a unary operand).
+		if x.Default != nil && token.UnaryPrec < prec1 {
+			// parenthesis needed
+			p.print(token.LPAREN)
+			p.expr(x)
+			p.print(token.RPAREN)
+			break
+		}
+		p.expr1(x.X, token.HighestPrec, 1)
 		p.print(x.Tok)
 		if x.Default != nil {
 			p.print(token.COLON)
-			p.expr(x.Default)
+			p.expr1(x.Default, token.UnaryPrec, 1)
 		}
 	case *ast.LambdaExpr:
 		if x.LhsHasParen {
